@@ -266,7 +266,7 @@ func WithClientIPResolver(resolver ClientIPResolver) Option {
 // packages that use route annotation.
 func WithAnnotation(key, value any) RouteOption {
 	return routeOptionFunc(func(s sealedOption) error {
-		if !reflect.TypeOf(key).Comparable() {
+		if !reflect.ValueOf(key).Comparable() {
 			return fmt.Errorf("%w: annotation key is not comparable", ErrInvalidConfig)
 		}
 		if s.route.annots == nil {
